@@ -56,6 +56,9 @@ func (pr *Program) verifyFunction(fn *ssa.Function) (c *Ctx) {
 		for _, u := range fc.Unfold {
 			fr.unfoldHint(u, env, "true")
 		}
+		for _, u := range fc.Reveal {
+			fr.revealHint(u, env)
+		}
 	}
 	fr.run(st, "true")
 	// frame skolem
@@ -69,6 +72,9 @@ func (pr *Program) verifyFunction(fn *ssa.Function) (c *Ctx) {
 		env := &Env{fr: fr, cur: r.st, old: fr.entry, vars: map[string]Val{}, results: r.res, paramsEntry: true}
 		for _, u := range fc.Unfold {
 			fr.unfoldHint(u, env, r.reach)
+		}
+		for _, u := range fc.Reveal {
+			fr.revealHint(u, env)
 		}
 		for i, en := range fc.Ensures {
 			g := fr.evalBool(en.E, env, en)
